@@ -511,6 +511,28 @@ func (g *dgen) method(svc *spec.Service, idx int) *spec.Method {
 				if loc == LocQuery {
 					m.Params[name] = []string{name, "q_" + name, name}[t.Draw("qname", 3)]
 					g.feat("loc:query")
+					// the query key may be spelled like ANOTHER attribute of the payload that travels in the body
+					// (Param("filter:q") next to a body attribute q): two different things in two different places
+					var bodyNames []string
+					for _, pf := range p.Fields {
+						_, q := m.Params[pf.Name]
+						_, h := m.Headers[pf.Name]
+						_, c := m.Cookies[pf.Name]
+						if !q && !h && !c && !strings.Contains(path, "{"+pf.Name+"}") && pf.Sec == "" {
+							bodyNames = append(bodyNames, pf.Name)
+						}
+					}
+					if len(bodyNames) > 0 && t.Draw("qname-like-body-attribute", 6) == 0 {
+						cand := bodyNames[t.Draw("which-body-name", len(bodyNames))]
+						taken := false
+						for _, k := range m.Params {
+							taken = taken || k == cand
+						}
+						if !taken {
+							m.Params[name] = cand
+							g.feat("loc:query-key-named-like-body-attribute")
+						}
+					}
 				} else {
 					m.Headers[name] = "X-" + []string{"Foo", "Bar-Baz", "Q"}[t.Draw("hname", 3)] + fmt.Sprint(i)
 					g.feat("loc:header")
